@@ -13,6 +13,7 @@ mod e1crash;
 mod driver;
 mod e2;
 mod e3;
+mod e4;
 mod handlers;
 mod model;
 mod rng;
@@ -72,6 +73,7 @@ fn dispatch(cfg: RunCfg) -> RunResult {
                     "e1" => e1::run(cfg).await,
                     "e2" => e2::run(cfg).await,
                     "e3" => e3::run(cfg).await,
+                    "e4" => e4::run(cfg).await,
                     other => RunResult::harness_error(&cfg, format!("unknown engine {}", other)),
                 }
             })
